@@ -17,7 +17,8 @@
       source / receiver shares and initial energies (i), the wall frames for the 24 rotations (j),
       the Stokes entries of the form-factor matrix (k) of the image room are DERIVED to be the
       renumbered ones; with the visibility data and the Nusselt-branch entries transported
-      (hypotheses) the patch histograms correspond (l, partial).
+      (hypotheses) the patch histograms correspond (l, partial) and the output curve of the
+      rotated room is the identical list (m, partial).
     NOT carried by any theorem (NOT_CARRIED in harness/props/C17.py): the 0.5 %-of-peak bound under
     axis permutations, float rounding, the Nusselt branch,
     [point_in_polygon] under rotations (the visibility statement is conditional on it).
@@ -610,3 +611,43 @@ Proof.
              tm K j d b t).
 Qed.
 Print Assumptions C17_room_axis_permutation_partial.
+
+(** (m) C17_room_rotation_curve_partial (PARTIAL).  Under the hypotheses of (l), and with the
+    visibility from the carried receiver transported as well, the result of the whole composed
+    model -- the mono curve with or without direct sound -- of the rotated room for the rotated
+    source and receiver is the IDENTICAL list: the patch-wise receiver terms correspond through
+    [pi] (same slot towards the receiver, same receiver share, distance and arrival bin), and the
+    sum over the patches does not depend on their numbering. *)
+Theorem C17_room_rotation_curve_partial {T} {O : Ops T} {RL : RingLaws T} {OL : OrderLaws T}
+    {FL : FieldLaws T} {FlL : FloorLaws T} {DL : DivLaws T} {AL : FieldFacts.AbsLaws T}
+    (sigma : nat -> nat) (e0 e1 e2 : T) (rm : @room T) (pi : nat -> nat) (spos rpos : @vec T) :
+  Permutation [sigma 0; sigma 1; sigma 2] [0; 1; 2] ->
+  (e0 = 1 \/ e0 = - (1))%T -> (e1 = 1 \/ e1 = - (1))%T -> (e2 = 1 \/ e2 = - (1))%T ->
+  sdet sigma e0 e1 e2 = 1%T ->
+  walls_ok rm -> rm_ref_out rm <> [] -> relabels sigma e0 e1 e2 rm pi ->
+  let m := smap sigma e0 e1 e2 in
+  let rm' := sperm_room sigma e0 e1 e2 rm in
+  let sc := room_scene rm in
+  let sc' := room_scene rm' in
+  (forall k, k < rm_np rm ->
+     nthb (room_point_vis rm' (m spos)) (pi k) = nthb (room_point_vis rm spos) k) ->
+  (forall k, k < rm_np rm ->
+     nthb (room_point_vis rm' (m rpos)) (pi k) = nthb (room_point_vis rm rpos) k) ->
+  (forall i j, i < rm_np rm -> j < rm_np rm -> vis_sym sc' (pi i) (pi j) = vis_sym sc i j) ->
+  (forall i j, i < rm_np rm -> j < rm_np rm -> vis_sym sc i j = true -> wall sc i <> wall sc j) ->
+  (forall i j, i < j -> j < rm_np rm -> vis_sym sc i j = true ->
+     coincidence_check (rm_thres rm) (nth j (rm_patch_pts rm) []) (nth i (rm_patch_pts rm) []) = true ->
+     nusselt_ff (rm_thr_seg rm) (rm_thr_dot rm) (rm_thr_lag rm)
+       (nth (pi i) (rm_patch_pts rm') []) (nthv (pr_normals (rm_processed rm')) (pi i))
+       (nth (pi j) (rm_patch_pts rm') []) (nthv (pr_normals (rm_processed rm')) (pi j)) =
+     nusselt_ff (rm_thr_seg rm) (rm_thr_dot rm) (rm_thr_lag rm)
+       (nth i (rm_patch_pts rm) []) (nthv (pr_normals (rm_processed rm)) i)
+       (nth j (rm_patch_pts rm) []) (nthv (pr_normals (rm_processed rm)) j)) ->
+  forall tm K direct,
+    room_mono rm' tm (m spos) (m rpos) K direct = room_mono rm tm spos rpos K direct.
+Proof.
+  intros Hp H0 H1 H2 Hdet Hw Hout Hpi. cbv zeta. intros Hsv Hrv Hvis Hacross HNus tm K direct.
+  exact (room_mono_rotation sigma e0 e1 e2 Hp H0 H1 H2 Hdet rm Hw Hout pi Hpi spos rpos Hsv Hrv Hvis Hacross HNus
+           tm K direct).
+Qed.
+Print Assumptions C17_room_rotation_curve_partial.
